@@ -144,7 +144,7 @@ fn num(v: &Val, f: &str) -> Option<u128> {
 
 pub fn run(ctx: &Ctx) -> i32 {
     let mut report = ctx.report("C08", "exploration");
-    report.rule = "scenarios begin(token) -> commit(token, final) (and interleaved pairs of transactions) against the simulated terminal: configured pre-authorisation amount over {0, 1, 10^k-1/10^k/10^k+1, 10^12-1, random}, final amount over {0, pre-1, pre, pre+1, 2^32-1, 2^32, 2^32+1, u64::MAX, u64::MAX-1, 2^63+pre, random}, currency 0..9999, tokens = CP437 text (any byte, no trailing NUL) of 0..200 characters, a third of them built around string literals harvested from the repository's own sources (a token equal to / starting with / ending in a constant of the implementation), first receipt number 1..9999, the terminal's status fields over their full BCD ranges or absent; in a third of the scenarios a card is read before / between the transaction calls, its status information carrying an amount, a receipt number and a maximum pre-authorisation amount (TLV 1F0B) below / at / above the configured amount; in a quarter of the scenarios the link fails once during the reservation (close/garbage/silence/NACK/reply-then-close at a random packet), so that the client re-sends it and the terminal issues a second receipt number. Oracle: the requests the terminal decodes with the reference codec: Reservation{amount=cfg, currency=cfg, reference 1F63=token}; PartialReversal{87=issued receipt, 04=max(pre-final,0) computed in u128, 49=cfg, reference 1F63=token} (payment type and reference prefix are recorded, not judged: the statement does not mention them); ledger balance reserved-released=min(pre,final); summary fields numerically equal to the last status information. Non-trivial = scenario in which the commit reached the terminal; distinct by hash of (config, token, final, receipt, status fields).".into();
+    report.rule = "scenarios begin(token) -> commit(token, final) (and interleaved pairs of transactions) against the simulated terminal: configured pre-authorisation amount over {0, 1, 10^k-1/10^k/10^k+1, 10^12-1, random}, final amount over {0, pre-1, pre, pre+1, 2^32-1, 2^32, 2^32+1, u64::MAX, u64::MAX-1, 2^63+pre, random}, currency 0..9999, tokens = CP437 text (any byte, no trailing NUL) of 0..200 characters, a third of them built around string literals harvested from the repository's own sources (a token equal to / starting with / ending in a constant of the implementation), first receipt number 1..9999, the terminal's status fields over their full BCD ranges or absent; in a third of the scenarios a card is read before / between the transaction calls, its status information carrying an amount, a receipt number and a maximum pre-authorisation amount (TLV 1F0B) below / at / above the configured amount; in a quarter of the scenarios the link fails once during the reservation (close/garbage/silence/NACK/reply-then-close at a random packet), so that the client re-sends it and the terminal issues a second receipt number. Oracle: the requests the terminal decodes with the reference codec: Reservation{amount=cfg, currency=cfg, reference 1F63=token}; PartialReversal{87=issued receipt, 04=max(pre-final,0) computed in u128, 49=cfg, reference 1F63=token} (payment type and reference prefix are recorded, not judged: the statement does not mention them); ledger balance reserved-released=min(pre,final); summary fields numerically equal to the status information of that commit (a third of the second commits are completed without any: no figures may be handed back then). Non-trivial = scenario in which the commit reached the terminal; distinct by hash of (config, token, final, receipt, status fields).".into();
     report.exhaustive = Some(false);
     report.assumptions = vec!["string formatting of date/time/terminal id beyond numeric equality is not judged".into(), "64-bit usize (amounts are usize in the configuration)".into()];
     let schema = Arc::new(refcodec::zvt_schema());
@@ -195,6 +195,7 @@ fn one(r: &mut Report, rng: &mut Rng, schema: &Arc<refcodec::layout::Schema>, di
         terminal_id: { let v = bcd_range(rng, 8); opt(rng, v) },
         currency: Some(currency as u64),
         card_name: None,
+        result_code: None,
     };
     // calls: new(1), begin t1 (2), [begin t2 (3)], commit ... in either order
     let mut order: Vec<(String, u64)> = vec![(t1.clone(), f1)];
@@ -234,8 +235,11 @@ fn one(r: &mut Report, rng: &mut Rng, schema: &Arc<refcodec::layout::Schema>, di
             1 => vec![Pre::PrintLine("Beleg".into())],
             _ => vec![],
         };
-        sc.plan.push(call, Cmd::PartialReversal, ExPlan { pre: pre_pkts, status: Some(st.clone()), ..ExPlan::default() });
-        statuses.push(st);
+        // now and then a later commit is completed by the terminal without any status information: there is nothing
+        // to reproduce then, in particular not what an earlier commit reported
+        let no_status = i > 0 && rng.chance(1, 3);
+        sc.plan.push(call, Cmd::PartialReversal, ExPlan { pre: pre_pkts, status: Some(st.clone()), result: if no_status { ExResult::NoStatus } else { ExResult::Normal }, ..ExPlan::default() });
+        statuses.push(if no_status { None } else { Some(st) });
         sc.calls.push(Call::Commit(t.clone(), *f));
         let _ = i;
     }
@@ -319,7 +323,17 @@ fn one(r: &mut Report, rng: &mut Rng, schema: &Arc<refcodec::layout::Schema>, di
         }
         // summary
         let ct = tr.calls.iter().filter(|c| matches!(c.call, Some(Call::Commit(..)))).nth(k).unwrap();
-        let st = &statuses[k];
+        let Some(st) = &statuses[k] else {
+            // nothing was reported: whatever the call returns, it must not carry figures
+            r.count("commits_without_status_information", 1);
+            if let CallResult::Ok(OkVal::Summary { terminal_id, amount, trace_number, date, time }) = &ct.result {
+                if amount.is_some() || trace_number.is_some() || date.is_some() || time.is_some() || terminal_id.is_some() {
+                    r.violation("C08 summary: figures are handed back although the terminal reported none for this commit", &format!("summary {:?}; the terminal completed this commit without a status information (an earlier commit had reported {:?})", ct.result.short(), statuses.iter().flatten().next()), case());
+                    return;
+                }
+            }
+            continue;
+        };
         match &ct.result {
             CallResult::Ok(OkVal::Summary { terminal_id, amount, trace_number, date, time }) => {
                 let parse = |s: &Option<String>| s.as_ref().and_then(|x| x.parse::<u64>().ok());
